@@ -1,5 +1,238 @@
-(* NamingIO.v — stub: replaced by the real decoder/runner when the property is built. *)
-From Coq Require Import List.
-From M Require Import Sx.
+(* NamingIO.v — decoding of generated C11 cases and encoding of the model's observations
+   (helper tables, helper calls, get_triggers / get_transitions after every step).
+   Strings travel as lists of character codes. *)
+From Coq Require Import List Arith Bool String Ascii.
+From M Require Import Sx Naming.
 Import ListNotations.
-Definition run_naming_case (x : sx) : sx := L [N 0].
+
+
+Fixpoint string_of_codes (l : list nat) : string :=
+  match l with [] => EmptyString | n :: r => String (ascii_of_nat n) (string_of_codes r) end.
+Fixpoint codes_of_string (s : string) : list nat :=
+  match s with EmptyString => [] | String a r => nat_of_ascii a :: codes_of_string r end.
+Definition d_str (x : sx) : option string :=
+  match d_list d_nat x with Some l => Some (string_of_codes l) | None => None end.
+Definition e_str (s : string) : sx := L (map N (codes_of_string s)).
+
+Definition e_exn (e : exn) : sx :=
+  N (match e with MachineError => 0 | AttributeError => 1 | ValueError => 2 | KeyError => 3 | TypeError => 4 end).
+Definition e_res (r : res) : sx :=
+  match r with RBool b => L [N 0; e_bool b] | RExn e => L [N 1; e_exn e] | RUser k => L [N 2; N k] end.
+
+Definition d_cfg (x : sx) : option cfg :=
+  match x with
+  | L [a; au; ov; ig] =>
+      do a' <- d_str a; do au' <- d_bool au; do ov' <- d_bool ov; do ig' <- d_bool ig;
+      Some (mkCfg a' au' ov' ig')
+  | _ => None
+  end.
+
+Definition d_aval (x : sx) : option aval :=
+  match x with
+  | L [N 0; N k] => Some (VPre k)
+  | L [N 1] => Some VNone
+  | _ => None
+  end.
+Definition d_obj (x : sx) : option mobj :=
+  match x with
+  | L [i; cl; ins] =>
+      do i' <- d_nat i; do cl' <- d_list (d_pair d_str d_aval) cl;
+      do ins' <- d_list (d_pair d_str d_aval) ins; Some (new_obj i' cl' ins')
+  | _ => None
+  end.
+
+Definition d_src (x : sx) : option srcspec :=
+  match x with
+  | L [] => Some SAll
+  | L [l] => do l' <- d_list d_str l; Some (SList l')
+  | _ => None
+  end.
+Definition d_dst (x : sx) : option dstspec :=
+  match x with
+  | L [N 0; d] => do d' <- d_str d; Some (DName d')
+  | L [N 1] => Some DSame
+  | L [N 2] => Some DNone
+  | _ => None
+  end.
+
+Definition d_op (x : sx) : option op :=
+  match x with
+  | L [N 0; ns] => do ns' <- d_list d_str ns; Some (OAddStates ns')
+  | L [N 1; s] => do s' <- d_str s; Some (OSetInitial s')
+  | L [N 2; t; s; d; ok] =>
+      do t' <- d_str t; do s' <- d_src s; do d' <- d_dst d; do ok' <- d_bool ok;
+      Some (OAddTransition t' s' d' ok')
+  | L [N 3; t; s; d] =>
+      do t' <- d_str t; do s' <- d_option d_str s; do d' <- d_option d_str d;
+      Some (ORemoveTransition t' s' d')
+  | L [N 4; o; i] => do o' <- d_obj o; do i' <- d_option d_str i; Some (OAddModel o' i')
+  | L [N 5; mid; n; a] =>
+      do mid' <- d_nat mid; do n' <- d_str n; do a' <- d_option d_str a; Some (OCall mid' n' a')
+  | _ => None
+  end.
+
+Definition d_query (x : sx) : option (string * string * string) :=
+  match x with
+  | L [t; s; d] => do t' <- d_str t; do s' <- d_str s; do d' <- d_str d; Some (t', s', d')
+  | _ => None
+  end.
+
+(* ------------------------------------------------------------------ observation *)
+Definition unknown_name : string := "zz_unknown".
+
+Definition e_kind (v : option aval) : sx :=
+  match v with
+  | None => L [N 9]
+  | Some (VPre k) => L [N 0; N k]
+  | Some VNone => L [N 1]
+  | Some (VState s) => L [N 3; e_str s]
+  | Some _ => L [N 2]
+  end.
+Definition is_helper (v : option aval) : bool :=
+  match v with
+  | Some VTrigger | Some VMayTrigger | Some (VEvent _) | Some (VMay _) | Some (VIs _) => true
+  | _ => false
+  end.
+
+Definition visible_names (o : mobj) : list string :=
+  map fst (o_inst o) ++ filter (fun n => negb (smem n (map fst (o_inst o)))) (map fst (o_cls o)).
+
+Definition e_call (c : cfg) (m : mach) (o : mobj) (n : string) (arg : option string) : sx :=
+  let (o', r) := call_attr c m o n arg in L [e_res r; e_option e_str (cur_state c o')].
+
+Definition obs_model (c : cfg) (m : mach) (o : mobj) : sx :=
+  let names := visible_names o in
+  let evs := map fst (m_events m) ++ [unknown_name] in
+  L [ N (o_id o);
+      e_option e_str (cur_state c o);
+      L (map (fun n => L [e_str n; e_kind (getattr o n)]) names);
+      L (map (fun n => L [e_str n; e_call c m o n None])
+             (filter (fun n => is_helper (getattr o n)) names));
+      L (map (fun e => L [e_str e; e_call c m o "trigger" (Some e); e_call c m o "may_trigger" (Some e)]) evs);
+      L (map (fun s => L [e_str s; e_kind (getattr o (is_name c s));
+                          if is_helper (getattr o (is_name c s))
+                          then L [e_call c m o (is_name c s) None] else L []]) (m_states m));
+      L (map (fun s => L [e_str s; e_kind (getattr o (to_name c s));
+                          if is_helper (getattr o (to_name c s))
+                          then L [e_call c m o (to_name c s) None] else L []]) (m_states m)) ].
+
+Definition e_trans (t : trans) : sx := L [e_str (t_src t); e_option e_str (t_dst t)].
+
+Definition obs_mach (c : cfg) (qs : list (string * string * string)) (m : mach) : sx :=
+  L [ L (map e_str (m_states m));
+      L (map e_str (map fst (m_events m)));
+      L (map (obs_model c m) (m_models m));
+      L (map (fun s => L [e_str s; L (map e_str (get_triggers m [s]))]) (m_states m)
+         ++ [L [e_str "*"; L (map e_str (get_triggers m (m_states m)))];
+             L [e_str unknown_name; L (map e_str (get_triggers m [unknown_name]))]]);
+      L (map (fun q => match q with (t, s, d) => L (map e_trans (get_transitions m t s d)) end)
+             ((EmptyString, "*"%string, "*"%string) :: qs)) ].
+
+Definition e_outcome (x : outcome) : sx :=
+  match x with Done => L [N 0] | Raised e => L [N 1; e_exn e] | Returned r => L [N 2; e_res r] end.
+
+Fixpoint run_obs (c : cfg) (qs : list (string * string * string)) (m : mach) (ops : list op) : list sx :=
+  match ops with
+  | [] => []
+  | x :: r => let (m', out) := step c m x in
+              L [e_outcome out; obs_mach c qs m'] :: run_obs c qs m' r
+  end.
+
+(* the constructor: its operations in order; the first one that raises aborts it *)
+Fixpoint run_ctor (c : cfg) (m : mach) (ops : list op) : mach + exn :=
+  match ops with
+  | [] => inl m
+  | x :: r => match step c m x with
+              | (_, Raised e) => inr e
+              | (m', _) => run_ctor c m' r
+              end
+  end.
+
+(* a flat case: [0; cfg; nctor; ops; queries] — the first nctor operations are the
+   constructor call (one observation for all of them), then one observation per operation *)
+Definition run_flat_naming (x : list sx) : sx :=
+  match x with
+  | [cf; nct; ops; qs] =>
+      match d_cfg cf, d_nat nct, d_list d_op ops, d_list d_query qs with
+      | Some c, Some n, Some ops', Some qs' =>
+          match run_ctor c empty_mach (firstn n ops') with
+          | inl m0 => L [N 1; L (obs_mach c qs' m0 :: run_obs c qs' m0 (skipn n ops'))]
+          | inr e => L [N 2; e_exn e]
+          end
+      | _, _, _, _ => L [N 0]
+      end
+  | _ => L [N 0]
+  end.
+
+(* ------------------------------------------------------------------ nested cases *)
+Fixpoint d_tree (x : sx) : option stree :=
+  match x with
+  | L [n; L ks] =>
+      do n' <- d_str n;
+      do ks' <- (fix go (l : list sx) : option (list stree) :=
+                   match l with
+                   | [] => Some []
+                   | k :: r => match d_tree k, go r with Some a, Some b => Some (a :: b) | _, _ => None end
+                   end) ks;
+      Some (SN n' ks')
+  | _ => None
+  end.
+Definition d_hcfg (x : sx) : option hcfg :=
+  match x with
+  | L [s; a; o] => do s' <- d_str s; do a' <- d_bool a; do o' <- d_bool o; Some (mkH s' a' o')
+  | _ => None
+  end.
+Inductive hop := HAddModel (o : mobj) (init : list string) | HSetState (mid : nat) (paths : list (list string)).
+Definition d_hop (x : sx) : option hop :=
+  match x with
+  | L [N 0; o; i] => do o' <- d_obj o; do i' <- d_list d_str i; Some (HAddModel o' i')
+  | L [N 1; mid; ps] => do mid' <- d_nat mid; do ps' <- d_list (d_list d_str) ps; Some (HSetState mid' ps')
+  | _ => None
+  end.
+Definition e_hkind (k : hkind) : sx :=
+  match k with KPre n => L [N 0; N n] | KNone => L [N 1] | KHelper => L [N 2] | KAbsent => L [N 9] end.
+(* registered models with their active leaf paths *)
+Definition hmodels := list (mobj * list (list string)).
+Definition obs_hmodel (h : hcfg) (f : list stree) (oa : mobj * list (list string)) : sx :=
+  let (o, act) := oa in
+  L [N (o_id o);
+     L (map (fun p =>
+               let ik := nested_is_kind h o p in
+               L [e_str (join_path (h_sep h) p); e_hkind ik;
+                  match ik with
+                  | KHelper => L [e_bool (is_state_nested act p false); e_bool (is_state_nested act p true)]
+                  | _ => L []
+                  end;
+                  e_hkind (nested_to_kind h o p)]) (forest_paths f))].
+Definition hstep (h : hcfg) (f : list stree) (ms : hmodels) (x : hop) : hmodels * sx :=
+  match x with
+  | HAddModel o init =>
+      if existsb (fun oa => Nat.eqb (o_id (fst oa)) (o_id o)) ms then (ms, L [N 0])
+      else if wrapper_clash h f o then (ms, L [N 1; e_exn AttributeError])
+      else (ms ++ [(o, [init])], L [N 0])
+  | HSetState mid ps =>
+      (map (fun oa => if Nat.eqb (o_id (fst oa)) mid then (fst oa, ps) else oa) ms, L [N 0])
+  end.
+Fixpoint hrun (h : hcfg) (f : list stree) (ms : hmodels) (ops : list hop) : list sx :=
+  match ops with
+  | [] => []
+  | x :: r => let (ms', out) := hstep h f ms x in
+              L [out; L (map (obs_hmodel h f) ms')] :: hrun h f ms' r
+  end.
+Definition run_nested_naming (x : list sx) : sx :=
+  match x with
+  | [hc; fo; ops] =>
+      match d_hcfg hc, d_list d_tree fo, d_list d_hop ops with
+      | Some h, Some f, Some ops' =>
+          L [N 1; L (map (fun p => e_str (join_path (h_sep h) p)) (forest_paths f)); L (hrun h f [] ops')]
+      | _, _, _ => L [N 0]
+      end
+  | _ => L [N 0]
+  end.
+
+Definition run_naming_case (x : sx) : sx :=
+  match x with
+  | L (N 0 :: rest) => run_flat_naming rest
+  | L (N 1 :: rest) => run_nested_naming rest
+  | _ => L [N 0]
+  end.
